@@ -11,6 +11,14 @@ os.makedirs(base + '/out/demo', exist_ok=True)
 wt = base + '/repo'
 if not os.path.exists(wt):
     subprocess.check_call(['git', '-C', '/repo', 'worktree', 'add', '-q', '--detach', wt, 'HEAD'])
+import glob
+taken = []
+for m in sorted(glob.glob(f'/verif/seeded/{pid}-*/meta.json')):
+    d = json.load(open(m))
+    taken.append('  - ' + (d.get('summary') or '')[:420].replace('\n', ' '))
+if taken:
+    focus += ('\n\nIdeas ALREADY TAKEN by other people for this property (do not repeat them or close variants; find a different '
+              'part of the mechanism or a different kind of slip):\n' + '\n'.join(taken))
 a = prop['anchors']
 mech = '; '.join(f"{m['name']} ({m['where']})" for m in a.get('mechanism', []))
 tmpl = open('/verif/tools/seed_prompt.tmpl').read()
